@@ -5,6 +5,8 @@
    unicast-only.  The statements hold for EVERY accepted trace: any number of pending / in-flight
    transmissions, any stop instant, any interleaving of their begins and ends, any latency. *)
 From CR Require Import Model.Shutdown Proofs.Shutdown.
+(* send workers against the scheduler's stop: the step relation is chosen by the extracted shape of start() / stop(): Properties/Workers.v *)
+From CR Require Properties.Workers.
 From CR Require Import Model.Group Model.RunOrder Proofs.Group Proofs.RunOrder gen.ExtGroup.
 Local Open Scope N_scope.
 
